@@ -40,7 +40,7 @@ HFrame(e, f) ==
   ELSE IF f.qt = 12 /\ OwnerOf(f) = {} /\ \E t \in DOMAIN lr : lr[t].rev # "" /\ ~lr[t].sent THEN Rej("c13.reverse_lookup_asks_wrong_name")
   ELSE IF OwnerOf(f) = {} THEN Skip
   ELSE LET t == CHOOSE x \in OwnerOf(f) : TRUE IN
-       IF lr[t].name = "localhost" THEN Rej("c13.localhost_sent_to_dns")
+       IF IsLocalName(lr[t].name) THEN Rej("c13.localhost_sent_to_dns")
        ELSE IF f.qt = 12 /\ FileFirst /\ lr[t].hrev # "" THEN Rej("c13.hosts_entry_ignored_by_reverse_lookup")
        ELSE IF lr[t].api \in {"gai", "ghbn"} /\ f.qt \notin {1, 28} THEN Rej("c13.forward_lookup_asks_wrong_type")
        ELSE IF lr[t].api \in {"gai", "ghbn"} /\ lr[t].family = 4 /\ f.qt # 1 THEN Rej("c13.family_4_lookup_asks_aaaa")
